@@ -107,6 +107,16 @@ def gen() -> None:
             raise px.Unsupported(f"test.Cookie._from_response_header changed: missing {needle!r}")
     if "return f'{self.key}={self.value}'" not in trh:
         raise px.Unsupported("test.Cookie._to_request_header changed")
+    # statement skeletons of everything the hand-written model stands for (layout and comments do not matter): the tables
+    # and patterns above are regenerated, the statements around them are pinned
+    sk = []
+    for owner, fn in (("http", px.find_def(http, "dump_cookie")), ("http", px.find_def(http, "parse_cookie")),
+                      ("sansio.http", px.find_def(sans, "parse_cookie")), ("sansio.http", px.find_def(sans, "_cookie_unslash_replace")),
+                      ("test.Cookie", px.find_method(ck, "_from_response_header")), ("test.Cookie", px.find_method(ck, "_to_request_header")),
+                      ("sansio.response.Response", px.find_method(px.find_class(px.load("sansio/response.py"), "Response"), "set_cookie")),
+                      ("sansio.response.Response", px.find_method(px.find_class(px.load("sansio/response.py"), "Response"), "delete_cookie"))):
+        sk.append(f"## {owner}.{fn.name}\n" + px.skeleton(fn))
+    px.check_pin("C13", "c13_cookies.txt", "\n".join(sk) + "\n", "statement skeleton of the cookie functions")
     text = px.HEADER.format(tool="c13.py", src="http.py, sansio/http.py, test.py")
     text += f"Definition cookie_no_quote_class : list (N * N) := {px.coq_ranges(nq)}.\n"
     text += f"Definition cookie_slash_class : list (N * N) := {px.coq_ranges(sl)}.\n"
